@@ -80,6 +80,7 @@ type Case struct {
 	Oracle  []string `json:"oracle"`  // direct-oracle failures
 	OrKinds []string `json:"orkinds"` // one machine-readable kind per failure
 	Clob    []uint64 `json:"clob"`    // first indexes of files hit by an earlier-file conflict at slot > 0
+	Unrep   []int    `json:"unrep"`   // ops (fsave) whose injected zero-fill write error Save did not report
 	Stats   map[string]int `json:"stats"`
 }
 
@@ -281,7 +282,7 @@ func (w *world) apply(op *Op) (o Out) {
 		}
 	}()
 	switch op.K {
-	case "save":
+	case "save", "csave", "fsave":
 		es := segEntries(op.Segs)
 		if len(es) > 0 {
 			fi, slot := w.ds.SlotGe(es[0].Index)
@@ -297,7 +298,14 @@ func (w *world) apply(op *Op) (o Out) {
 			hs = &raftpb.HardState{Term: op.HS[0], Vote: op.HS[1], Commit: op.HS[2]}
 		}
 		sn := snapOf(op.Snap)
-		o.E = errCode(w.ds.Save(hs, es, sn))
+		switch op.K {
+		case "csave":
+			o.E = errCode(w.crashSave(op, hs, es, sn))
+		case "fsave":
+			o.E = errCode(w.faultSave(op, hs, es, sn))
+		default:
+			o.E = errCode(w.ds.Save(hs, es, sn))
+		}
 		// reference
 		_ = w.ms.Append(es)
 		_ = w.full.Append(es)
@@ -503,7 +511,7 @@ func (w *world) close() {
 var caseNo int
 
 func runCase(kind string, src source) *Case {
-	c := &Case{Case: caseNo, Kind: kind, Ops: []Op{}, Oracle: []string{}, OrKinds: []string{}, Clob: []uint64{}, Stats: map[string]int{}}
+	c := &Case{Case: caseNo, Kind: kind, Ops: []Op{}, Oracle: []string{}, OrKinds: []string{}, Clob: []uint64{}, Unrep: []int{}, Stats: map[string]int{}}
 	caseNo++
 	dir := filepath.Join(workDir(), fmt.Sprintf("c%d", c.Case))
 	_ = os.RemoveAll(dir)
@@ -539,6 +547,7 @@ func workDir() string {
 
 func main() {
 	logger.SetLogger(zap.NewNop())
+	installFS()
 	if len(os.Args) < 2 {
 		fmt.Fprintln(os.Stderr, "usage: c17 gen nsmall nsize ncount | replay file | consts")
 		os.Exit(2)
@@ -567,6 +576,9 @@ func main() {
 		}
 		for _, ops := range witnessCases() {
 			gen.Emit(runCase("witness", fromList(ops)))
+		}
+		for _, ops := range crashCases() {
+			gen.Emit(runCase("crashpoint", fromList(ops)))
 		}
 		// minimised past failures and hand-picked cases (corpus/C17/*.json), before anything generated
 		if dir := os.Getenv("VERIF_CORPUS"); dir != "" {
